@@ -10,7 +10,7 @@ NOTE = ("Trusted: Coq 8.16.1 kernel, gen/translate.py, extraction (ExtrOcamlBasi
 CLAIMED = {
     "C01": ("Reference loop semantics of all operation families as executable Gallina index plans (Spec/LoopSem.v) with theorems on the "
             "position arithmetic; Model/Lower.v models the lowering of rearrangements with nested flattened axes (reshape - transpose - "
-            "reshape as a term of Model/Opt.v) the alignment of element-wise inputs and the reshape / axis= / rearrangement around a reduction, and Props/C01.v proves that they put every element "
+            "reshape as a term of Model/Opt.v) the alignment of element-wise inputs, the reshape / axis= / rearrangement around a reduction and the operand placement around matmul (with the sum-of-products theorem under a matmul hypothesis), and Props/C01.v proves that they put every element "
             "where the loop notation says, for all expressions and sizes; the graph einx traces for such calls is compared with the model's "
             "term by the extracted, proved-sound equivalence checker; every generated well-formed call of every family is evaluated by the extracted spec and compared with "
             "einx on numpy, numpy.numpylike, numpy.einsum (OperationNotSupportedError is the only other accepted outcome)",
@@ -42,7 +42,8 @@ CLAIMED.update({
             "in-place and reachable from the update_at family only; dynamic snapshot comparison of all arguments over 4 memory layouts, "
             "3 backends, run and graph=True, solve_*/matches",
             "Coq theorems over regenerated tables + snapshot correspondence", "DESIGN.md 3/C09"),
-    "C16": ("Order-independence theorem for accumulating updates (and the refutation for set_at) in Props/C16.v; generated calls incl. "
+    "C16": ("Order-independence theorem for accumulating updates (and the refutation for set_at) and invariance of the four modelled lowerings under "
+            "injective renaming of axes (= another draw of random identifiers) in Props/C16.v; generated calls incl. "
             "deliberately colliding coordinates, tied implicit outputs, short forms and same-type tensor factories executed in fresh processes "
             "under 8/50 PYTHONHASHSEED values in process-dependent order, digests compared",
             "Coq theorem on the only order-sensitive choice point + cross-process digest comparison", "DESIGN.md 3/C16"),
@@ -97,7 +98,8 @@ CLAIMED.update({
             "calls of every stage, equal-but-not-identical arguments) run in one process are compared call by call with pristine forked processes",
             "Coq theorem on the cache key + warm-vs-pristine differential histories", "DESIGN.md 3/C06"),
     "C07": ("Theorems (Props/C07.v) on the reference semantics: a number is an axis with a name of its own (injective renaming never moves an "
-            "element), regrouping with parentheses is irrelevant; every other documented shorthand (implicit output, automatic brackets, "
+            "element), regrouping with parentheses is irrelevant; on the parser model: doubled spaces change nothing; on the lowering model: "
+            "automatic brackets are exactly the axes missing from the output (tied through C01's graph correspondence); every other documented shorthand (implicit output, automatic brackets, "
             "anonymous/named ellipsis, keepdims, adjacent brackets, redundant spaces, rearrange, unit coordinate bracket) is decided by "
             "executing (short, long) pairs derived from generated calls on identical data",
             "Coq theorems on the spec + pairwise short/long correspondence", "DESIGN.md 3/C07"),
